@@ -36,22 +36,25 @@ def rk (Lx Ly Lz : Nat) (x y z : Int) : Nat :=
   else if InLine x z then y.toNat
   else rkB Lx Ly Lz + (if x = 2 then 4 * Lx + 2 else x.toNat)
 
+/-- a coordinate `4L` of a cell is the qubit coordinate `0` -/
+def wr (L : Nat) (v : Int) : Int := if v = 4 * (L : Int) then 0 else v
+
 /-- the witness qubit of a cell -/
-def wit (x y z : Int) : Coord :=
-  if 8 ≤ z then [x - 1, y, z - 2]
+def wit (Ly : Nat) (x y z : Int) : Coord :=
+  if 8 ≤ z then [x - 1, wr Ly y, z - 2]
   else if z = 4 then
     (if x = 4 then [5, y - 2, 4]
      else if x = 8 then (if y = 4 then [6, 3, 4] else [7, y - 2, 4])
-     else [x - 2, y, 3])
-  else if x = 6 then [6, y - 2, if z = 2 then 3 else 5]
-  else [x - 2, y, if z = 2 then 3 else 5]
+     else [x - 2, wr Ly y, 3])
+  else if x = 6 then [6, y - 2, (z + 4) / 2]
+  else [x - 2, y, (z + 4) / 2]
 
 def cellRank (Lx Ly Lz : Nat) : Coord → Nat
   | [x, y, z] => rk Lx Ly Lz x y z
   | _ => 0
 
-def cellWit : Coord → Coord
-  | [x, y, z] => wit x y z
+def cellWit (Ly : Nat) : Coord → Coord
+  | [x, y, z] => wit Ly x y z
   | _ => []
 
 /-! ### ranks -/
@@ -165,11 +168,16 @@ variable {Lx Ly Lz : Nat} {x y z tx ty tz : Int}
 
 /-- layers `z ≥ 8` -/
 theorem tri_bulk (hs : IsC Lx Ly Lz x y z) (hz8 : 8 ≤ z) (ht : IsC Lx Ly Lz tx ty tz)
-    (hq : [x - 1, y, z - 2] ∈ keys Lx Ly Lz tx ty tz) :
+    (hq : [x - 1, wr Ly y, z - 2] ∈ keys Lx Ly Lz tx ty tz) :
     (tx = x ∧ ty = y ∧ tz = z) ∨ rk Lx Ly Lz tx ty tz < rk Lx Ly Lz x y z := by
   obtain ⟨sx0, sx1, sy0, sy1, sz0, sz1, spx, srx, sry⟩ := hs.cellR
   have rt' := ht.cellR
   obtain ⟨x0, x1, y0, y1, z0, z1, px, rx, ry⟩ := ht.cellR
+  have hw : (wr Ly y = y ∧ y < 4 * (Ly : Int)) ∨ (wr Ly y = 0 ∧ y = 4 * (Ly : Int)) := by
+    unfold wr; by_cases h : y = 4 * (Ly : Int)
+    · rw [if_pos h]; exact Or.inr ⟨rfl, h⟩
+    · rw [if_neg h]; left; omega
+  generalize wr Ly y = b at hq hw
   obtain ⟨g1, g2⟩ := geo_xodd ht (by omega) (by omega) hq
   have G : (tx = x ∧ ty = y ∧ tz = z) ∨ tz < z := by
     clear hq rt' hs ht
@@ -248,17 +256,29 @@ theorem tri_slabA (hs : IsC Lx Ly Lz x y z) (hx6 : x ≠ 6)
 
 /-- slab, cells `(x, y, 4)` with `x ≥ 12` -/
 theorem tri_slabB (hs : IsC Lx Ly Lz x y 4) (hx : 12 ≤ x) (ht : IsC Lx Ly Lz tx ty tz)
-    (hq : [x - 2, y, 3] ∈ keys Lx Ly Lz tx ty tz) :
+    (hq : [x - 2, wr Ly y, 3] ∈ keys Lx Ly Lz tx ty tz) :
     (tx = x ∧ ty = y ∧ tz = 4) ∨ rk Lx Ly Lz tx ty tz < rk Lx Ly Lz x y 4 := by
   obtain ⟨sx0, sx1, sy0, sy1, sz0, sz1, spx, srx, sry⟩ := hs.cellR
   have rt' := ht.cellR
   obtain ⟨x0, x1, y0, y1, z0, z1, px, rx, ry⟩ := ht.cellR
+  have hw : (wr Ly y = y ∧ y < 4 * (Ly : Int)) ∨ (wr Ly y = 0 ∧ y = 4 * (Ly : Int)) := by
+    unfold wr; by_cases h : y = 4 * (Ly : Int)
+    · rw [if_pos h]; exact Or.inr ⟨rfl, h⟩
+    · rw [if_neg h]; left; omega
+  generalize wr Ly y = b at hq hw
   obtain ⟨g1, g2⟩ := geo_zodd ht (by omega) (by omega) (by omega) (by omega) hq
   have htz : tz < 8 := by omega
   have hnl : ¬ InLine x 4 := by unfold InLine; omega
   have G : (tx = x ∧ ty = y ∧ tz = 4) ∨ (tx ≠ 2 ∧ tx < x) := by
     clear hq rt' hnl hs ht
-    omega
+    rcases g2 with ⟨m, hx', hy'⟩ | ⟨m, hy', hx'⟩
+    · right
+      clear hy' hw
+      omega
+    · have e3 : tz = 4 := by omega
+      have e2 : ty = y := by omega
+      clear hy' hw g1 m
+      omega
   rcases G with hself | ⟨ht2, hlt⟩
   · exact Or.inl hself
   · right
